@@ -24,6 +24,10 @@ Checked after every operation of a history:
   not yet in the session) yields the identity-map object of *that* key, and a following
   ``get(..., identity_token=tok)`` returns it with zero statements;
 * the identity-token part of an identity key never changes once assigned;
+* the bulk variants (``merge_all`` with >= 2 given objects sharing a new or existing key,
+  directly or through the merge cascade; ``add_all`` / ``delete_all`` with the same object
+  twice) behave like the loop of single calls: one session object per identity, and the
+  following flush succeeds;
 * ``Session.get`` of an identity that is present and whose ``InstanceState.expired`` is
   False returns that object and the M-spy DBAPI log shows **zero** statements
   (``populate_existing`` / ``with_for_update`` variants are exempt from the SQL clause,
@@ -70,7 +74,7 @@ META = {
     "soft_s": {"quick": 50, "thorough": 800},
     "exhaustive": {"quick": False, "thorough": False},
     "require": ["invariant_checks", "returned_checked", "returned_already_held", "get_no_sql_checked",
-                "pk_switch_flushed", "readd_refused_or_done", "key_reused_after_delete", "merge_token_loaded_checked", "merge_token_noload_flushed"],
+                "pk_switch_flushed", "readd_refused_or_done", "key_reused_after_delete", "merge_token_loaded_checked", "merge_token_noload_flushed", "bulk_merge_dup_checked"],
     "assumptions": ["the harness holds every object it receives, so identity comparisons are never confused by id() reuse"],
 }
 
@@ -683,7 +687,105 @@ def build_ops(h):
         h.new_in_txn.clear(); h.block_n = False
         return ("close",)
 
+    def bulk():
+        """Input class: the bulk variants of the session API given duplicate / aliasing inputs
+        must behave like the equivalent loop of single calls: one session object per identity,
+        and the following flush succeeds."""
+        import sqlalchemy.exc as sa_exc
+
+        kind = rng.choice(["merge_all_dup", "merge_all_dup", "merge_all_cascade_dup", "merge_all_existing_dup",
+                           "add_all_dup", "delete_all_dup"])
+        if kind.startswith("merge_all"):
+            if not s.autoflush:
+                return None     # without autoflush a loop of merge() calls makes two pending objects as well
+            h.fresh += 1
+            if kind == "merge_all_cascade_dup":
+                # two different new parents whose collections each hold a new child with the same key
+                cid = 3000 + h.fresh
+                srcs = []
+                for j in range(2):
+                    h.fresh += 1
+                    p = P()
+                    p.id, p.name = 3000 + h.fresh, h.uniq("bp")
+                    c = C()
+                    c.id, c.v = cid, h.uniq("bc")
+                    p.children.append(c) if not isinstance(p.children, (set, dict)) else None
+                    srcs.append(p)
+                dup_cls, dup_pk = C, (cid,)
+            else:
+                cls = rng.choice([P, K, C] if h.block_n else [P, N, K, C])
+                if kind == "merge_all_existing_dup":
+                    pks = h.known_pks(cls)
+                    if not pks:
+                        return None
+                    pk = rng.choice(pks)
+                elif cls is N:
+                    pk = (h.uniq("bn"),)
+                elif cls is K:
+                    pk = (60, h.fresh)
+                else:
+                    pk = (3000 + h.fresh,)
+                srcs = []
+                for j in range(rng.choice([2, 2, 3])):
+                    o = cls()
+                    for nm_, v in zip(h.pkcols(cls), pk):
+                        setattr(o, nm_, v)
+                    if cls is P:
+                        o.name = h.uniq("bm")
+                    else:
+                        o.v = h.uniq("bm")
+                    srcs.append(o)
+                dup_cls, dup_pk = cls, tuple(pk)
+            for o in srcs:
+                h.see(o)
+            got = s.merge_all(srcs)
+            for g in got:
+                h.see(g)
+            h.ctx.count("bulk_merge_dup_checked")
+            if kind != "merge_all_cascade_dup" and any(g is not got[0] for g in got):
+                h.viol("merge_all-returns-several-objects-for-one-identity",
+                       f"merge_all of {len(srcs)} objects with key {dup_cls.__name__}{dup_pk} returned "
+                       f"{len({id(g) for g in got})} distinct session objects", h.wit({"kind": kind}))
+                return ("bulk", kind)
+            try:
+                s.flush()
+            except sa_exc.IntegrityError as e:
+                h.viol("flush-after-merge_all-raises-integrity-error",
+                       f"merge_all([...same key {dup_cls.__name__}{dup_pk} ...]) then flush: {str(e)[:100]}",
+                       h.wit({"kind": kind}))
+                return ("bulk", kind)
+            # exactly one attached object claims the duplicated identity
+            pkc = h.pkcols(dup_cls)
+            key = h.inspect(dup_cls).identity_key_from_primary_key(dup_pk)
+            claim = h.persistent_for(key) + [
+                o for o in h.held.values() if type(o) is dup_cls and h.inspect(o).pending and h.inspect(o).session is s
+                and tuple(o.__dict__.get(c_) for c_ in pkc) == dup_pk]
+            if len(claim) != 1:
+                h.viol("merge_all-leaves-several-attached-objects-for-one-identity",
+                       f"{len(claim)} attached {dup_cls.__name__} objects with primary key {dup_pk} after merge_all + flush",
+                       h.wit({"kind": kind}))
+            elif claim:
+                h.returned(claim[0], dup_cls, dup_pk, how=f"bulk {kind}")
+            return ("bulk", kind)
+        if kind == "add_all_dup":
+            h.fresh += 1
+            o = P()
+            o.id, o.name = 3000 + h.fresh, h.uniq("ba")
+            h.see(o)
+            s.add_all([o, o])
+            s.flush()
+            h.returned(o, P, (o.id,), how="bulk add_all")
+            return ("bulk", kind)
+        objs = [o for o in persistent(K) if id(o) not in h.new_in_txn]
+        if not objs or not hasattr(s, "delete_all"):
+            return None
+        o = rng.choice(objs)
+        s.delete_all([o, o])
+        s.flush()
+        return ("bulk", kind)
+
     table = [
+        (bulk, 5),
         (q_all, 10), (q_pk, 6), (get, 14), (lazy, 5), (merge, 6), (refresh, 4), (expire, 5),
         (expunge, 5), (readd, 5), (new, 6), (pk_switch, 5), (delete, 6), (modify, 5),
         (commit, 3), (rollback, 4), (begin_nested, 3), (end_nested, 3), (expunge_all, 1),
@@ -787,7 +889,7 @@ def run(ctx):
                     # a queued back-reference removal merged into a lazily loaded list that does
                     # not hold the child (token aliases of one row): list.remove -> ValueError
                     ValueError)
-    per_variant = ctx.pick({"quick": 80, "thorough": 1200})
+    per_variant = ctx.pick({"quick": 60, "thorough": 1200})
     sampled = 0
     for vi, lazy in enumerate(LAZY):
         rig = R.Rig(ctx, [lambda sa, orm, reg, lazy=lazy: R.zoo_pc(sa, orm, reg, child_lazy=lazy), R.zoo_natural])
